@@ -29,6 +29,9 @@ type c09Op struct {
 	// policy Denied2, same no_new_privs request, no flags) runs completely on Thread2
 	Thread2 int    `json:"thread2,omitempty"`
 	Denied2 uint32 `json:"denied2,omitempty"`
+	// Reassembled (load of a valid policy): the Policy value compiled and printed another policy before (same shape) and
+	// was then edited in place: the NEW filter has to be in force
+	Reassembled bool `json:"reassembled,omitempty"`
 }
 
 type c09Case struct {
@@ -184,6 +187,9 @@ func drawC09(t *rapid.T) c09Case {
 				loadedNoTsync[op.Thread] = true
 			}
 		}
+		if op.Op == "load" && op.Kind == "valid" && rapid.IntRange(0, 3).Draw(t, "reassembled") == 0 {
+			op.Reassembled = true
+		}
 		c.Ops = append(c.Ops, op)
 	}
 	return c
@@ -243,7 +249,8 @@ func checkC09(raw json.RawMessage) (ev.Result, error) {
 			job.Steps = append(job.Steps, kjob.Step{Op: "nested-load", Thread: op.Thread, Filter: &kjob.FilterSpec{Policy: c09PolicyFor(archName, op), NNP: op.NNP, HostArch: true},
 				Inner: &kjob.Step{Op: "load", Thread: op.Thread2, Filter: &kjob.FilterSpec{Policy: c09PolicyFor(archName, in), NNP: op.NNP, HostArch: true}}})
 		default:
-			job.Steps = append(job.Steps, kjob.Step{Op: "load", Thread: op.Thread, Filter: &kjob.FilterSpec{Policy: c09PolicyFor(archName, op), NNP: op.NNP, Flag: op.Flag, HostArch: true}})
+			job.Steps = append(job.Steps, kjob.Step{Op: "load", Thread: op.Thread, Filter: &kjob.FilterSpec{Policy: c09PolicyFor(archName, op), NNP: op.NNP, Flag: op.Flag, HostArch: true,
+				Reassembled: op.Reassembled && op.Kind == "valid"}})
 		}
 		addSnap()
 	}
